@@ -79,6 +79,9 @@ class MergeExtractor(BaseExtractor):
                                     for j, e in enumerate(
                                         bracketed.get_children("literal", "expression")
                                     ):
+                                        if j >= len(insert_columns):
+                                            # more values than columns listed
+                                            break
                                         if column_reference_optional := e.get_child(
                                             "column_reference"
                                         ):
